@@ -246,7 +246,10 @@ class Interp:
             prev = self.call_args.get(e['id'])
             self.call_args[e['id']] = args if prev is None else [a if a == b else TOP for a, b in zip(args, prev)]
             if name in self.hooks:
-                return self.hooks[name](args, e)
+                h = self.hooks[name]
+                if getattr(h, 'wants_env', False):
+                    return h(args, e, env)      # a hook that models a side effect on the abstract state
+                return h(args, e)
             return TOP
         if k == 'StmtExpr':
             return TOP
